@@ -45,6 +45,9 @@ def run(tier, replay=None):
     rep.floor('LanguageIdentifier::maximize bodies', len(m), 1)
     rep.floor('likely-subtags rows (all three components present)', nrows, 8219)
     rep.count('maximize decision paths / distinct lookups', '%d / %d' % (res['paths'], res['lookups']))
+    # values built by the compile-time macros belong to this property's domain as well: the macro witnesses of C16 (cached per tree)
+    from . import c16
+    c16.witness_family(rep, tier)
     rep.explanation = ('(1) on every hit path each result component is the caller\'s own subtag or the found row\'s component, and a given subtag outside the key is never '
                        'replaced (CASC-RESULT) while key components agree with the row by data (TAB-KEEPS); (2) every row value carries all three components (TAB-COMPLETE), so a '
                        'changed identifier is full; (3) all-present input returns "unchanged" before any lookup (CASC-ORDER pattern 1,1,1), so a second application changes nothing; '
